@@ -21,4 +21,7 @@ theorem demo_wf : WF demo := by decide
 theorem demo_acyclic : Acyclic demo :=
   acyclic_of_rank (fun n => n.getD 1 0) (by decide)
 
+/-- an engine outside the hypotheses: algorithm 0 feeds back a value nobody declares -/
+def bad : Engine Nat := ⟨[⟨0, 0, .task, [⟨0, [0]⟩], [], [.val 0 1 0 7]⟩, A1]⟩
+
 end DawgieVerif.C09
